@@ -47,13 +47,13 @@ type stObsItem struct {
 }
 
 type stCase struct {
-	Dim    int          `json:"dim"`
-	Log    []stChange   `json:"log"`
-	Outs   []stOutcome  `json:"outs"`
-	Counts [][2]uint64  `json:"counts"`
-	Final  []stObsItem  `json:"final"`
-	Cut    int          `json:"cut,omitempty"`
-	Note   string       `json:"note,omitempty"`
+	Dim    int         `json:"dim"`
+	Log    []stChange  `json:"log"`
+	Outs   []stOutcome `json:"outs"`
+	Counts [][2]uint64 `json:"counts"`
+	Final  []stObsItem `json:"final"`
+	Cut    int         `json:"cut,omitempty"`
+	Note   string      `json:"note,omitempty"`
 }
 
 func errClass(e error) string {
